@@ -140,7 +140,7 @@ RINV = ["Responsible", "Exclusive", "OnTarget", "CtrLeft", "Ok"]
 
 
 def rconsts(nodes=3, removers=2, disp=1, enq=0, depth=1, counts=(1,), ops=(), nest=(), defects=(), evkeys=(1, 2)):
-    return {"MaxNodes": nodes, "MaxRemovers": removers, "MaxDisp": disp, "MaxEnq": enq, "MaxDepth": depth, "Counts": set(counts),
+    return {"MaxNodes": nodes, "MaxRemovers": removers, "MaxDisp": disp, "MaxEnq": enq, "MaxDepth": depth, "Counts": set(c if c >= 0 else 100 - c for c in counts),
             "Ops": set(ops), "NestOps": set(nest), "Defects": set(defects), "EvKeys": set(evkeys)}
 
 
